@@ -101,6 +101,15 @@ Example ex_budget_log :
      T 900; Ack; T 1000])) = [sec 100; sec 400; sec 900].
 Proof. vm_compute. reflexivity. Qed.
 
+(* the same budget on a call that only RECEIVES (a download): the application keeps consuming inbound
+   data (Acked), which is not data sent: after two pings nothing more goes out *)
+Example ex_budget_receiving :
+  ping_times (snd (run ex_budget 0
+    [StreamOpened; HeadersSent; T 50; Acked; T 100; Ack; Acked; T 200; Acked; T 300; Acked; T 400; Ack;
+     Acked; T 500; Acked; T 600; Acked; T 700; Acked; T 800; Acked; T 900; Acked; T 1000; Acked;
+     T 1100])) = [sec 100; sec 400].
+Proof. vm_compute. reflexivity. Qed.
+
 (* the client default: keepalive off *)
 Example ex_client_default_off :
   exists c, default_cfg RClient = Some c /\ k_enabled c = false /\
